@@ -35,7 +35,7 @@ class Ctx:
     def kind(self, r):
         return z3.Select(self.arr("$kind"), r)
 
-    def fun(self, name, arg_sorts, ret_sort, body, deps=()):
+    def fun(self, name, arg_sorts, ret_sort, body, deps=(), extra_patterns=None):
         """A spec function of this state, introduced as an *opaque* symbol with its definition as a
         quantified fact triggered on the symbol itself: gives the solver clean triggers instead of large
         if-then-else terms.  body(*args) -> term.  Memoised per context."""
@@ -47,7 +47,8 @@ class Ctx:
         from .core import fresh_name
         f = z3.Function(fresh_name("F_" + name), *(list(arg_sorts) + [ret_sort]))
         xs = [z3.Const("x%d_%s" % (i, name), srt) for i, srt in enumerate(arg_sorts)]
-        ax = z3.ForAll(xs, f(*xs) == body(*xs), patterns=[f(*xs)])
+        pats = [f(*xs)] + (list(extra_patterns(*xs)) if extra_patterns else [])
+        ax = z3.ForAll(xs, f(*xs) == body(*xs), patterns=pats)
         self.eng.cur_facts.append(ax)
         memo[key] = f
         return f
@@ -96,6 +97,11 @@ class Contract:
 
     def may_raise(self, c0, a):
         """{ExcName: condition}: ExcName may be raised only when condition holds (one direction)."""
+        return {}
+
+    def before_call(self, callee, c, callee_args):
+        """Ghost assertions (lemma hints) to prove and then assume right before a call to `callee`
+        (short contract name) in this function's body; c: state at the call."""
         return {}
 
     def ghost_symbolic(self, eng, st):
@@ -192,8 +198,18 @@ class Contract:
     def apply(self, eng, args, kwargs, st):
         a = self.bind(eng, args, kwargs, st)
         c0 = Ctx(eng, dict(st.heap))
+        caller = eng.cur_contract
+        if caller is not None and caller is not self:
+            # ghost assertions of the caller placed right before this call: proved, then available
+            for name, f in caller.before_call(self.short(), c0, a).items():
+                st.oblige("hint:%s.before(%s)" % (name, self.short()), f)
+                st.define(f, tag="hint." + name)
         for name, f in self.pre(c0, a).items():
-            st.oblige("call:%s.pre.%s" % (self.short(), name), f)
+            if caller is not None and caller.focus("callpre." + name) is not None:
+                st.obls.append(Obligation("call:%s.pre.%s" % (self.short(), name),
+                                          caller._sliced(st, "callpre." + name, []), f))
+            else:
+                st.oblige("call:%s.pre.%s" % (self.short(), name), f)
         exc = self.raises(c0, a)
         for ename, cond in exc.items():
             s2 = st.fork()
